@@ -510,8 +510,15 @@ def obligations(tier, seed):
             for oi in range(6):
                 p = dict(form=f, fix=dict(op=oi))
                 if f == 'connected':
-                    p['digits'] = [0, 1, 2] if q else [0, 1, 2, 3, 9]
-                    p['nbrs'] = 1 if q else 2
+                    p['digits'] = [0, 1, 2]
+                    p['nbrs'] = 1
+                    obs.append(dict(name='translate_%s_op%d' % (f, oi), func='h_translate', param=p, timeout=to))
+                    if not q:
+                        # two neighbours: split further over the bond kind named in the text (none = default single)
+                        for bi in (len(BKINDS), 1, 4, 7):
+                            p2 = dict(form=f, digits=[0, 1, 2], nbrs=2, fix=dict(op=oi, bond=bi))
+                            obs.append(dict(name='translate_%s_op%d_b%d_n2' % (f, oi, bi), func='h_translate', param=p2, timeout=to))
+                    continue
                 elif q:
                     p['digits'] = [0, 1, 3, 6, 9]
                 obs.append(dict(name='translate_%s_op%d' % (f, oi), func='h_translate', param=p, timeout=to))
